@@ -627,6 +627,7 @@ class TorrentFileHybrid(MetaFile, ProgMixin):
         info["meta version"] = 2
 
         if os.path.isfile(self.path):
+            self.kws["pad"] = False
             info["file tree"] = {self.name: self._traverse(self.path)}
             info["length"] = os.path.getsize(self.path)
 
@@ -734,6 +735,7 @@ class TorrentAssembler(MetaFile, ProgMixin):
         info["meta version"] = 2
 
         if os.path.isfile(self.path):
+            self.kws["pad"] = False
             info["file tree"] = {self.name: self._traverse(self.path)}
             info["length"] = os.path.getsize(self.path)
 
